@@ -10,7 +10,7 @@ from sa.cf import cfg_of
 from sa.pm import ClassInfo, FuncInfo, call_name, norm, self_attr, walk_local_ordered
 from sa.report import Ob, rule
 
-from .common import attr_stores, find_locals, ob, strip_ret, traces
+from .common import attr_stores, expand, find_locals, ob, strip_ret, traces
 
 OUT = 'zeroconf._protocol.outgoing.DNSOutgoing'
 INC = 'zeroconf._protocol.incoming.DNSIncoming'
@@ -497,7 +497,9 @@ def label(ctx: Any) -> List[Ob]:
     for t in cfg.nodes:
         if t.kind == 'test' and isinstance(t.ast, ast.Compare):
             try:
-                p, op = lf.comparison(prog, wu.module, t.ast, lambda x: 'L' if isinstance(x, ast.Name) else None)
+                from .common import expand
+
+                p, op = lf.comparison(prog, wu.module, expand(wu, t.ast), lambda x: 'L' if isinstance(x, ast.Call) and norm(x.func) == 'len' and isinstance(x.args[0], ast.Call) and call_name(x.args[0]) == 'encode' else None)
             except lf.NotLinear:
                 continue
             if set(p) - {()} == {(('L', 1),)} and p[(('L', 1),)] < 0 and any(s.kind == 'raise' for s, lab in t.succ if lab is True):
@@ -607,7 +609,7 @@ def rollback(ctx: Any) -> List[Ob]:
         g = c.generators[0]
         if isinstance(g.iter, ast.Call) and isinstance(g.iter.func, ast.Attribute) and g.iter.func.attr == 'items' and self_attr(g.iter.func.value, me) == 'names' and len(g.ifs) == 1:
             try:
-                p, op = lf.comparison(prog, ck.module, g.ifs[0], lambda x: ('IDX' if isinstance(x, ast.Name) and x.id == norm(g.target.elts[1]) else ('START' if isinstance(x, ast.Name) else None)))
+                p, op = lf.comparison(prog, ck.module, expand(ck, g.ifs[0]), lambda x: ('IDX' if isinstance(x, ast.Name) and x.id == norm(g.target.elts[1]) else ('START' if isinstance(x, ast.Name) and x.id == ck.params[2] else None)))
                 okc = lf.same_cmp((p, op), lf.parse_cmp('START - IDX <= 0'))
             except (lf.NotLinear, AttributeError, IndexError):
                 okc = False
